@@ -60,8 +60,13 @@ fn report_signature(stderr: &str) -> String {
 		.map(|c| if c.is_ascii_digit() { '#' } else { c })
 		.take(90)
 		.collect();
-	let frame = stderr
+	// only the part of the output that follows the report itself (compiler warnings precede it)
+	let after: Vec<&str> = stderr
 		.lines()
+		.skip_while(|l| !(l.contains("Undefined Behavior") || l.contains("ERROR: AddressSanitizer") || l.contains("Data race") || l.contains("Invalid read") || l.contains("Invalid write") || l.contains("uninitialised")))
+		.collect();
+	let frame = after
+		.iter()
 		.find(|l| l.contains("serde_avro_fast/src/") || l.contains("serde_avro_fast::"))
 		.map(|l| {
 			let l = l.trim();
